@@ -858,6 +858,10 @@ func (f *Frame) evalCall(e *CExpr, env *Env) *Val {
 		if a.K != VIface {
 			f.E.fail("as() needs an interface value")
 		}
+		if a.Boxed != nil && a.Boxed.K == VSlice {
+			// the interface value was made by boxing this slice: as() gives the slice itself
+			return a.Boxed
+		}
 		return &Val{K: VScalar, T: t, X: a.X}
 	case "matches", "rrun", "rstate":
 		rule := e.Args[0].Name
